@@ -226,7 +226,9 @@ def b_sph(ch):
 
 
 AXDIRS = [(0, 0, 1.0), (0, 0, -1.0), (1.0, 0, 0), (-1.0, 0, 0), (0, 1.0, 0), (0, -1.0, 0),
-          (1.0, 2.0, 2.0), (-1.0, 1.0, 0.5)]
+          (1.0, 2.0, 2.0), (-1.0, 1.0, 0.5),
+          # nearly (but not exactly) along a coordinate axis: 0.6 to 2 degrees off
+          (1.0, 0.03, 0.0), (-1.0, 0.01, -0.02), (0.02, 1.0, 0.0), (0.0, -0.015, 1.0)]
 
 
 def b_rcc(ch):
